@@ -14,7 +14,7 @@ from sim.popgen import date_pool
 PROP = "C14"
 TIERS = {
     "quick": {"runs": 80, "max_ops": 16, "cold_refs": 2, "selftest": 6},
-    "thorough": {"runs": 4000, "max_ops": 18, "cold_refs": 50, "selftest": 64},
+    "thorough": {"runs": 3000, "max_ops": 18, "cold_refs": 50, "selftest": 64},
 }
 LIB_OPS = ("SETUP", "COMPUTE", "REPEAT", "REWRITE", "BADDATA", "SWEEP")
 
